@@ -6,6 +6,7 @@ toolchain go1.23.5
 
 require (
 	github.com/facebookincubator/tacquito v0.0.0
+	github.com/prometheus/client_golang v1.13.0
 	pgregory.net/rapid v1.3.0
 )
 
@@ -14,7 +15,6 @@ require (
 	github.com/cespare/xxhash/v2 v2.1.2 // indirect
 	github.com/golang/protobuf v1.5.2 // indirect
 	github.com/matttproud/golang_protobuf_extensions v1.0.1 // indirect
-	github.com/prometheus/client_golang v1.13.0 // indirect
 	github.com/prometheus/client_model v0.2.0 // indirect
 	github.com/prometheus/common v0.37.0 // indirect
 	github.com/prometheus/procfs v0.8.0 // indirect
